@@ -1339,7 +1339,10 @@ class Corr:
         return self * y
 
     def __rtruediv__(self, y):
-        return (self ** (-1)) * y
+        if isinstance(y, (Obs, int, float, CObs, complex)):
+            newcontent = [None if _check_for_none(self, item) else y / item for item in self.content]
+            return Corr(_nan_to_none(self, newcontent), prange=self.prange)
+        return (self / y) ** (-1)
 
     @property
     def real(self):
